@@ -41,6 +41,11 @@ META["C08"] = dict(
     text="Kernel-checked on the model of NASEncrypt/NASMacCalculate for all algorithm ids/bearers/directions/payloads: invalid arguments give an error and leave the payload untouched; algorithm 0 is the identity / zero MAC; a MAC is exactly 4 octets; for algorithm 2 (any 16-octet block cipher): length preservation, involution, prefix stability, plaintext independence. The same laws for algorithms 1 and 3 and panic-freedom for every length are stated and evaluated on the real code by the oracle each run (not yet proved).",
     note=SEC_NOTE, technique="Lean 4 proof (validation/NULL/MAC-length laws, AES-CTR laws) + Go/Lean correspondence + law oracle on the real code")
 
+META["C20"] = dict(
+    text="Kernel-checked, for every operation sequence from NewGenerator(min,max), min<=max (induction over op lists with a representation invariant): every id returned by Allocate / Allocate_inRange is within [min,max] and not live; Allocate fails only when all ids are live (and succeeds otherwise); FreeID removes exactly that id, out-of-range frees are no-ops; a freed id is allocatable again; the scan loops terminate by returning to the start offset (fuel-adequacy lemma).",
+    note="Trusted: Lean kernel; the hand-written model of UPSC_Generator.go, tied by running identical histories through the real allocator and the model on every run; oracle evaluates the property on the real allocator with an abstract live set.",
+    technique="Lean 4 proof (invariant by induction over operation histories on a hand model) + Go/Lean correspondence on histories")
+
 NOT_APPLICABLE = {
  "C01": "check not built yet in this round (Lean model + correspondence planned, see DESIGN.md section 4); not claimed until it runs",
  "C02": "check not built yet in this round (Lean model + correspondence planned, see DESIGN.md section 4); not claimed until it runs",
